@@ -314,7 +314,8 @@ class Check:
 NATIVE_REGRESSIONS = {
     "C06": [("lost_wakeup_replay.py", {}, "C06.produce.no_lost_wakeup.flag_before_drain")],
     "C10": [("orphan_race_replay.py", {}, "C10.state.check_then_put_atomic"), ("replay_orphan_replay.py", {}, "C10.state.history_links_registered"),
-            ("replay_orphan_replay.py", {"paginated": True}, "C10.state.history_links_registered")],
+            ("replay_orphan_replay.py", {"paginated": True}, "C10.state.history_links_registered"),
+            ("replay_orphan_replay.py", {"ready_step": True}, "C10.step.checked_before_user")],
     "C02": [("track_race_replay.py", {}, "C02.state.lock_discipline.operations")],
     "C17": [("track_race_replay.py", {}, "C17.state.lock_discipline.operations"), ("logger_replay.py", {}, "C17.lemma.boundary")],
     "C09": [("branch_publish_replay.py", {"transition": "complete"}, "C09.models.publish_order.complete"), ("branch_publish_replay.py", {"transition": "fail"}, "C09.models.publish_order.fail"),
